@@ -95,7 +95,11 @@ let handle (toks : string list) : (string * string * string) option =
         let off = int_of_string off and seed = int_of_string seed in
         let addr = Z.add base (zi off) in
         let m0 = mem0 seed in
-        if kind = "ptr" then begin
+        if kind = "fnp" then begin
+          (* a function pointer is stored as its table index, in the width of a guest pointer *)
+          let sp = write m0 addr (bytes_le (nat_of_int c.pw) (z_of_string v)) in
+          Some (observe c sp off, observe c sp off, op ^ ":fnp")
+        end else if kind = "ptr" then begin
           let tgt = z_of_string v in
           let p = if tgt = Z0 then Z0 else Z.add base tgt in
           let m = store_ptr (zi c.pw) region addr p m0 in
